@@ -80,6 +80,8 @@ var vc04Routes = []vc04Route{
 	{30, "OPTIONS", "/public"},
 	{31, "POST", "/internal/vdr/v1/did"},       // rate-limited by the engine's internal rate limiter (burst 30)
 	{32, "POST", "/internal/vcr/v2/issuer/vc"}, // idem
+	{33, "POST", "/public"},
+	{34, "POST", "/public/:id"},
 }
 
 // request headers that proxies, browsers and frameworks give a meaning to: none of them may influence the guard
@@ -261,6 +263,9 @@ func vc04StartEngine(t *testing.T, name string, sameAddr, auth bool, keysFile, a
 	if auth {
 		cfg.Internal.Auth = AuthConfig{Type: BearerTokenAuthV2, AuthorizedKeysPath: keysFile, Audience: aud}
 	}
+	if name == "F" || name == "G" { // request bodies are logged: the body logger reads the whole body in front of the token middleware
+		cfg.Log = LogMetadataAndBodyLevel
+	}
 	e.config = cfg
 	if err := e.Configure(*core.NewServerConfig()); err != nil {
 		t.Fatalf("configure %s: %v", name, err)
@@ -276,6 +281,11 @@ func vc04StartEngine(t *testing.T, name string, sameAddr, auth bool, keysFile, a
 				vc04Seen.user = "-"
 			}
 			vc04Seen.mu.Unlock()
+			// the response itself names the handler and the user it saw (needed when requests overlap)
+			c.Response().Header().Set("X-Verif-Ran", strconv.Itoa(id))
+			if u, ok := c.Get(core.UserContextKey).(string); ok {
+				c.Response().Header().Set("X-Verif-User", "user:"+u)
+			}
 			return c.NoContent(200)
 		}
 		e.Router().Add(r.Method, r.Path, h)
@@ -333,6 +343,59 @@ func vc04Raw(addr, method string, target []byte, authHdr string, extra []string)
 	code, _ := strconv.Atoi(parts[1])
 	_, _ = io.Copy(io.Discard, conn)
 	return code
+}
+
+// one raw request whose response HEADERS are read: status, the canary that answered and the user it saw. `pause` is called
+// after the request head and the first body bytes were written and before the rest of the body is sent.
+func vc04RawSlow(addr, method, path, authHdr string, body string, pause func()) string {
+	conn, err := net.DialTimeout("tcp", addr, 2*time.Second)
+	if err != nil {
+		return "-1 ran=- -"
+	}
+	defer conn.Close()
+	_ = conn.SetDeadline(time.Now().Add(10 * time.Second))
+	var sb strings.Builder
+	sb.WriteString(method + " " + path + " HTTP/1.1\r\nHost: verif.test\r\nConnection: close\r\nContent-Type: application/json\r\n")
+	if authHdr != "" {
+		sb.WriteString("Authorization: " + authHdr + "\r\n")
+	}
+	sb.WriteString("Content-Length: " + strconv.Itoa(len(body)) + "\r\n\r\n")
+	half := len(body) / 2
+	sb.WriteString(body[:half])
+	if _, err := io.WriteString(conn, sb.String()); err != nil {
+		return "-2 ran=- -"
+	}
+	if pause != nil {
+		pause()
+	}
+	if _, err := io.WriteString(conn, body[half:]); err != nil {
+		return "-2 ran=- -"
+	}
+	rd := bufio.NewReader(conn)
+	line, err := rd.ReadString('\n')
+	if err != nil && line == "" {
+		return "0 ran=- -"
+	}
+	parts := strings.SplitN(strings.TrimSpace(line), " ", 3)
+	code := 0
+	if len(parts) >= 2 {
+		code, _ = strconv.Atoi(parts[1])
+	}
+	ran, user := "-", "-"
+	for {
+		h, err := rd.ReadString('\n')
+		h = strings.TrimSpace(h)
+		if h == "" || err != nil {
+			break
+		}
+		if v, ok := strings.CutPrefix(h, "X-Verif-Ran: "); ok {
+			ran = v
+		}
+		if v, ok := strings.CutPrefix(h, "X-Verif-User: "); ok {
+			user = v
+		}
+	}
+	return fmt.Sprintf("%d ran=%s %s", code, ran, user)
 }
 
 // every authority candidate of the target (text between a `//` and the next `/`, `?` or the end) with the verdict
@@ -578,6 +641,8 @@ type vc04Op struct {
 	Cred   string          `json:"cred,omitempty"`
 	HX     []string        `json:"hx,omitempty"` // extra request headers
 	Tag    string          `json:"tag,omitempty"`
+	ReqA   *vc04Op         `json:"ra,omitempty"` // overlap: the slow request
+	ReqB   *vc04Op         `json:"rb,omitempty"` // overlap: the request served while A is waiting for the rest of its body
 	Hdr    string          `json:"hdr,omitempty"`
 	Tok    *vc04Tok        `json:"tok,omitempty"`
 	A      string          `json:"a,omitempty"`
@@ -635,6 +700,8 @@ func TestVerifC04(t *testing.T) {
 		"C": vc04StartEngine(t, "C", false, false, keysFile, aud, vc04Routes), // two listeners, no auth
 		"D": vc04StartEngine(t, "D", false, true, keysFile, aud, rndRoutes),   // two listeners, token auth, random route table
 		"E": vc04StartEngine(t, "E", false, true, keysFile, "", vc04Routes),   // token auth, NO audience configured: the host name is enforced
+		"F": vc04StartEngine(t, "F", false, true, keysFile, aud, vc04Routes),  // two listeners, token auth, http.log = metadata-and-body
+		"G": vc04StartEngine(t, "G", true, true, keysFile, aud, vc04Routes),   // one shared listener, token auth, http.log = metadata-and-body
 	}
 	defer func() {
 		for _, e := range engines {
@@ -668,7 +735,7 @@ func TestVerifC04(t *testing.T) {
 	cfg := map[string]interface{}{"op": "cfg", "routesets": map[string][]vc04Route{"std": vc04Routes, "rnd": rndRoutes},
 		"keys": []string{keys[0].comment, keys[1].comment}, "aud": aud, "now": now.Unix(),
 		"engines": map[string]engCfg{"A": {"i", "p", true, "std", aud}, "B": {"s", "s", true, "std", aud}, "C": {"i", "p", false, "std", aud},
-			"D": {"i", "p", true, "rnd", aud}, "E": {"i", "p", true, "std", hostname}}}
+			"D": {"i", "p", true, "rnd", aud}, "E": {"i", "p", true, "std", hostname}, "F": {"i", "p", true, "std", aud}, "G": {"s", "s", true, "std", aud}}}
 	emit(cfg, "cfg")
 
 	run := func(op vc04Op) string {
@@ -694,6 +761,26 @@ func TestVerifC04(t *testing.T) {
 				ran = strconv.Itoa(vc04Seen.ran)
 			}
 			return fmt.Sprintf("%d ran=%s %s", code, ran, vc04Seen.user)
+		case "overlap":
+			e := engines[op.Eng]
+			if e == nil || op.ReqA == nil || op.ReqB == nil {
+				return "bad-overlap"
+			}
+			addrOf := func(l string) string {
+				if l == "pub" {
+					return e.pubAddr
+				}
+				return e.intAddr
+			}
+			ta, _ := hex.DecodeString(op.ReqA.T)
+			tb, _ := hex.DecodeString(op.ReqB.T)
+			var respB string
+			respA := vc04RawSlow(addrOf(op.ReqA.Lis), op.ReqA.M, string(ta), op.ReqA.Hdr, `{"slow":"body"}`, func() {
+				time.Sleep(40 * time.Millisecond) // A's chain is composed, its body logger waits for the rest of the body
+				respB = vc04RawSlow(addrOf(op.ReqB.Lis), op.ReqB.M, string(tb), op.ReqB.Hdr, "", nil)
+				time.Sleep(10 * time.Millisecond)
+			})
+			return "A:" + respA + " | B:" + respB
 		case "configure":
 			e := New(func() {}, nil)
 			cfg := DefaultConfig()
@@ -735,7 +822,7 @@ func TestVerifC04(t *testing.T) {
 				continue
 			}
 			var op vc04Op
-			if json.Unmarshal([]byte(line), &op) != nil || (op.Op != "req" && op.Op != "matchesPath" && op.Op != "bindOf" && op.Op != "configure") {
+			if json.Unmarshal([]byte(line), &op) != nil || (op.Op != "req" && op.Op != "matchesPath" && op.Op != "bindOf" && op.Op != "configure" && op.Op != "overlap") {
 				continue
 			}
 			if op.Op == "req" { // credentials are regenerated (keys are fresh each run): look the kind up
@@ -747,6 +834,19 @@ func TestVerifC04(t *testing.T) {
 				op.Hdr, op.Tok = c.hdr, &tk
 				tb, _ := hex.DecodeString(op.T)
 				op.AuthOK = vc04AuthorityVerdicts(op.M, tb)
+			}
+			if op.Op == "overlap" {
+				for _, h := range []*vc04Op{op.ReqA, op.ReqB} {
+					if h == nil {
+						continue
+					}
+					c, ok := credByKind[h.Cred]
+					if !ok {
+						c = credByKind["none"]
+					}
+					tk := c.tok
+					h.Hdr, h.Tok, h.AuthOK = c.hdr, &tk, map[string]bool{}
+				}
 			}
 			emit(op, run(op))
 		}
@@ -791,6 +891,37 @@ func TestVerifC04(t *testing.T) {
 			op := vc04Op{Op: "req", Eng: en, Lis: "int", M: "POST", T: hex.EncodeToString([]byte(path)), Show: strconv.QuoteToASCII(path),
 				AuthOK: map[string]bool{}, Cred: c.kind, Hdr: c.hdr, Tok: &tk, Tag: "burst"}
 			emit(op, run(op))
+		}
+	}
+
+	// two requests in flight at the same time (the first one's body arrives slowly; with http.log = metadata-and-body the body
+	// logger in front of the token middleware waits for it): every pairing listener x listener x credential. Each request must
+	// be answered exactly as if it were alone — by its own handler, on its own listener, with its own user.
+	{
+		type half struct{ lis, m, path, cred string }
+		slow := []half{{"pub", "POST", "/public", "none"}, {"pub", "POST", "/public/7", "none"}, {"pub", "POST", "/public", "valid1"},
+			{"int", "POST", "/internal/x/7", "none"}, {"int", "POST", "/internal/x/7", "valid0"}, {"int", "POST", "/internal/x/7", "expired"},
+			{"pub", "POST", "/internal/x/7", "none"}, {"pub", "POST", "/nothing", "none"}}
+		fast := []half{{"int", "GET", "/internal/x", "valid0"}, {"int", "GET", "/internal/x", "none"}, {"int", "GET", "/internal/x/9", "valid1"},
+			{"pub", "GET", "/public", "none"}, {"pub", "GET", "/public/3", "valid0"}, {"int", "DELETE", "/internal/x", "valid0"}, {"int", "GET", "/status", "none"}}
+		mkHalf := func(h half) *vc04Op {
+			c := credByKind[h.cred]
+			tk := c.tok
+			return &vc04Op{Lis: h.lis, M: h.m, T: hex.EncodeToString([]byte(h.path)), Show: strconv.QuoteToASCII(h.path), AuthOK: map[string]bool{}, Cred: c.kind, Hdr: c.hdr, Tok: &tk}
+		}
+		for _, en := range []string{"F", "G", "A"} {
+			for _, a := range slow {
+				for _, b := range fast {
+					if en == "G" && (a.lis == "pub" || b.lis == "pub") && r.Intn(2) == 0 {
+						continue // one shared listener: pub = int, half of the duplicates are enough
+					}
+					if en == "A" && r.Intn(3) != 0 {
+						continue // default log level: a third of the pairings (no client-controlled window there)
+					}
+					op := vc04Op{Op: "overlap", Eng: en, ReqA: mkHalf(a), ReqB: mkHalf(b)}
+					emit(op, run(op))
+				}
+			}
 		}
 	}
 
